@@ -74,7 +74,7 @@ func (e *Env) build(p Pair, side int, base string, sc *c10.Script) (evalFn, erro
 		return subHandler(p, side, base, false)
 	case "generic_authenticator":
 		return genericAuthn(p, side, base)
-	case "oauth2_introspection":
+	case "oauth2_introspection", "oauth2_introspection_md":
 		return introspection(p, side, base)
 	case "jwt_jwk":
 		return jwtJWK(p, side, base, e.Keys)
